@@ -26,7 +26,7 @@ PID = "C07"
 TOL = Fraction(1, 10 ** 8)
 
 
-def _base_db(ir, zm, m, nsim, values=None):
+def _base_db(ir, zm, m, nsim, values=None, zero_later_unant=False):
     start = ir.qq(2020, 1)
     span = start >> (start + nsim - 1)
 
@@ -38,7 +38,10 @@ def _base_db(ir, zm, m, nsim, values=None):
     for i, n in enumerate(zm.tvars):
         db[n] = ir.Series(start=start - MAXLAG, values=tuple(val(n, k, 0.25 + 0.0625 * i + 0.03125 * k) for k in range(-MAXLAG, 0)))
     for i, n in enumerate(list(zm.tshocks) + list(zm.mshocks)):
-        db[n] = ir.Series(start=start, values=tuple(val(n, k, 0.125 + 0.03125 * ((i + k) % 3)) for k in range(nsim)))
+        # zero_later_unant: plans that endogenize anticipated shocks after the start date force split frames, which break at every
+        # non-zero unanticipated transition shock; keeping those at zero after the start gives one (Split)frame over the whole span
+        db[n] = ir.Series(start=start, values=tuple((0.0 if (zero_later_unant and k > 0 and n in zm.tshocks) else val(n, k, 0.125 + 0.03125 * ((i + k) % 3)))
+                                                    for k in range(nsim)))
     for i, s in enumerate(zm.tshocks):
         db["ant_" + s] = ir.Series(start=start, values=tuple(val("ant_" + s, k, 0.0625 + 0.03125 * ((i + k) % 2)) for k in range(nsim)))
     return db, span, start
@@ -99,38 +102,54 @@ def _plans(zm, tier):
         if len(V) > 1 and len(E) > 1:
             out.append(dict(mode="u", targets=[(V[0], 1), (V[1], 1)], instruments=[(E[0], 1), (E[1], 1)]))
             out.append(dict(mode="a", targets=[(V[0], 1), (V[1], 2)], instruments=[(E[0], 0), (E[1], 0)]))
+            # anticipated shocks endogenized at different dates, in shock order and against it
+            out.append(dict(mode="a", targets=[(V[0], 1), (V[1], 2)], instruments=[(E[0], 0), (E[1], 1)]))
+            out.append(dict(mode="a", targets=[(V[0], 1), (V[1], 2)], instruments=[(E[1], 0), (E[0], 1)]))
+        out.append(dict(mode="a", targets=[(V[0], 2)], instruments=[(E[0], 1)]))
     else:
         for mode in ("u", "a"):
             for (v, kv) in itertools.product(V, range(3)):
                 for (e, ke) in itertools.product(E, range(3)):
-                    if mode == "a" and ke != 0:
-                        continue        # single-frame plans only (anticipated shocks endogenized at the start date)
+                    if mode == "a" and ke > kv:
+                        continue
                     if mode == "u" and ke > kv:
                         continue
                     out.append(dict(mode=mode, targets=[(v, kv)], instruments=[(e, ke)]))
             tg = list(itertools.product(V[:2], range(3)))
-            ins = [(e, k) for e in E for k in (range(3) if mode == "u" else range(1))]
+            ins = [(e, k) for e in E for k in range(3)]
             pairs_t = [p for p in itertools.combinations(tg, 2)][::3]
             pairs_i = [p for p in itertools.combinations(ins, 2)]
             for pt_ in pairs_t:
-                for pi_ in pairs_i[:3]:
+                for pi_ in (pairs_i[:3] if mode == "u" else pairs_i[::2]):
                     out.append(dict(mode=mode, targets=list(pt_), instruments=list(pi_)))
     return out
 
 
+def _later(spec):
+    """anticipated shocks endogenized after the start date (forces split frames)"""
+    return spec["mode"] == "a" and any(k > 0 for _, k in spec["instruments"])
+
+
+def _where(zm, later):
+    if not later:
+        return None
+    return lambda nm, k: not (nm in zm.tshocks and k > 0)        # pruned / zero unanticipated shocks stay concrete zeros
+
+
 def _run_plan(ir, zm, m, nsim, spec, override=None, values=None):
-    db, span, start = _base_db(ir, zm, m, nsim, values=values)
+    later = _later(spec)
+    db, span, start = _base_db(ir, zm, m, nsim, values=values, zero_later_unant=later)
     plan = _apply_plan(ir, m, span, start, db, spec, values=values)
-    with fo.FirstOrderLift(ir, _lift_rows(zm), override=override) as L, S.Path() as path:
+    with fo.FirstOrderLift(ir, _lift_rows(zm), override=override, lift_where=_where(zm, later)) as L, S.Path() as path:
         m.simulate(db, span, method="first_order", deviation=True, plan=plan)
     if len(L.caps) != 1:
         raise RuntimeError(f"{len(L.caps)} frames: multi-frame plans are outside the bound")
     return L.caps[0], path
 
 
-def _run_plain(ir, zm, m, nsim, override=None):
-    db, span, start = _base_db(ir, zm, m, nsim)
-    with fo.FirstOrderLift(ir, _lift_rows(zm), override=override) as L, S.Path() as path:
+def _run_plain(ir, zm, m, nsim, override=None, later=False):
+    db, span, start = _base_db(ir, zm, m, nsim, zero_later_unant=later)
+    with fo.FirstOrderLift(ir, _lift_rows(zm), override=override, lift_where=_where(zm, later)) as L, S.Path() as path:
         m.simulate(db, span, method="first_order", deviation=True)
     return L.caps[0], path
 
@@ -178,7 +197,7 @@ def check_plan(run, ir, zm, m, nsim, spec, idx):
             c = out[row[n], b0 + k]
             if isinstance(c, S.SReal) or (isinstance(c, float) and not math.isnan(c)):
                 override[(n, k)] = c
-    cap2, path2 = _run_plain(ir, zm, m, nsim, override=override)
+    cap2, path2 = _run_plain(ir, zm, m, nsim, override=override, later=_later(spec))
     out2 = cap2["out"]
     row2 = {n: i for i, n in enumerate(cap2["names"])}
     for v in list(zm.tvars) + list(zm.mvars):
@@ -224,7 +243,7 @@ def check_swap(run, ir, zm, m, nsim, spec, idx):
     M = _impact_matrix(ir, zm, m, nsim, spec)
     if np.linalg.matrix_rank(M, tol=1e-9) < M.shape[0] or abs(np.linalg.det(M)) < 1e-6:
         return
-    cap0, path0 = _run_plain(ir, zm, m, nsim)
+    cap0, path0 = _run_plain(ir, zm, m, nsim, later=_later(spec))
     out0 = cap0["out"]
     row0 = {n: i for i, n in enumerate(cap0["names"])}
     b00 = cap0["base_columns"][0]
@@ -291,13 +310,14 @@ def main(run):
     ]
     run.bounds["structures"] = ("zoo models nk3, ar2m, pc_const; span 4 periods; exactly identified plans with <=2 (variable,date) targets and <=2 "
                                 "(shock,date) instruments inside the first 3 periods, unanticipated (instrument date <= target date) and anticipated "
-                                "(instrument at the start date: single-frame plans); singular impact matrices skipped and counted; tier="
+                                "(instruments at the start date, or at later dates with no unanticipated transition shock after the start: one frame); "
+                                "singular impact matrices skipped and counted; tier="
                                 f"{run.tier} enumerates checks/C07._plans exhaustively")
     run.bounds["values"] = "every initial condition, shock (unanticipated, anticipated, measurement), target value and prior mean in [-1,1]; tolerance 1e-8"
     run.stubs += ["kalmans._INVERSE_FUNCTION['regular'] -> numpy.linalg.inv on the (concrete) innovation covariance: gains depend only on model and plan"]
     run.assumptions += ["cells are mathematical reals; float-born coefficients read exactly", "std rows stay concrete",
                         "equation consistency is decided as 'the plan path equals an ordinary simulation of the returned shocks' (C01 decides ordinary simulations)"]
-    run.outside += ["plans that split the simulation into several frames (anticipated shocks endogenized after the start date)",
+    run.outside += ["plans whose simulation is split into more than one frame (anticipated shocks endogenized after the start date together with later unanticipated shocks)",
                     "method='stacked_time' plans (see C06)", "singular or over/under-identified plans", "time-varying stds"]
     models = [zoo.by_name(n) for n in (("nk3", "ar2m", "pc_const") if run.tier == "thorough" else ("nk3", "ar2m"))]
     nsim = 4
@@ -321,7 +341,7 @@ def replay(case):
     nsim, spec = case["nsim"], case["spec"]
     spec = dict(mode=spec["mode"], targets=[tuple(t) for t in spec["targets"]], instruments=[tuple(t) for t in spec["instruments"]])
     vals = {k: float(Fraction(a, b)) for k, (a, b) in case.get("values", {}).items()}
-    db, span, start = _base_db(ir, zm, m, nsim, values=vals)
+    db, span, start = _base_db(ir, zm, m, nsim, values=vals, zero_later_unant=_later(spec))
     shock_rows = list(zm.tshocks) + ["ant_" + s for s in zm.tshocks] + list(zm.mshocks)
 
     def cell(box, n, k):
